@@ -115,7 +115,7 @@ def showOptVal : Option TVal → String | none => "-" | some v => showVal v
 
 /-- prim token `<ty>:<payload>` or `empty` -/
 def parsePrim (t : String) : Option (Option Prim) :=
-  if t = "empty" then some none else
+  if t = "empty" ∨ t = "emptyv" then some none else
   match t.splitOn ":" with
   | [ty, p] =>
     (match ty with
